@@ -726,3 +726,46 @@ def keyword_constructors(sources: SourceSet) -> SourceSet:
 
 
 VARIANTS.update({"optional-annotations": optional_annotations, "strip-docstrings": strip_docstrings, "keyword-constructors": keyword_constructors})
+
+
+def _flip_call_spelling(sources: SourceSet, to_keyword: bool) -> SourceSet:
+    """Calls of unambiguously-signed package functions: all arguments by keyword / as many as possible positionally."""
+    from ..normalize import _call_params, _signatures
+
+    trees = {rel: ast.parse(text) for rel, text in sources.files.items()}
+    sigs = _signatures(trees)
+    out = {}
+    for rel, tree in trees.items():
+        for call in ast.walk(tree):
+            if not isinstance(call, ast.Call):
+                continue
+            r = _call_params(call, sigs)
+            if r is None:
+                continue
+            name, params, by = r
+            pos_params = params[: params.index("*")] if "*" in params else params
+            if to_keyword:
+                call.args = []
+                call.keywords = [ast.keyword(arg=p, value=by[p]) for p in params if p != "*" and p in by]
+            else:
+                lead = []
+                for p in pos_params:
+                    if p not in by:
+                        break
+                    lead.append(p)
+                call.args = [by[p] for p in lead]
+                call.keywords = [ast.keyword(arg=p, value=by[p]) for p in params if p != "*" and p in by and p not in lead]
+        ast.fix_missing_locations(tree)
+        out[rel] = ast.unparse(tree) + "\n"
+    return SourceSet(out, sources.root)
+
+
+def keyword_calls(sources: SourceSet) -> SourceSet:
+    return _flip_call_spelling(sources, True)
+
+
+def positional_calls_variant(sources: SourceSet) -> SourceSet:
+    return _flip_call_spelling(sources, False)
+
+
+VARIANTS.update({"keyword-calls": keyword_calls, "positional-calls": positional_calls_variant})
